@@ -13,7 +13,7 @@ RULE = ("(a) structure-aware corruption of valid files built by the independent 
         "reference width, zero refcounts with text, over-long lengths, truncated entries; property set with bad byte-order "
         "mark, version, section offset, property count, offsets out of range, bad type words, string lengths beyond the "
         "stream; wrong CLSID; then on whatever opens: EVERY read operation (tables, columns, rows of every table, a join, "
-        "summary getters, streams and their contents) and mutating operations (insert, update, delete incl. delete-all, "
+        "summary getters, streams and their contents; the FFI layer get_information / get_table for every table, reached through its C symbols on a temporary file) and mutating operations (insert, update, delete incl. delete-all, "
         "create_table, drop_table, write_stream, summary change) each followed by flush.  Model and implementation must agree "
         "on ok / err per command and neither may panic.  (b) byte-level damage below the stream level (header, FAT, directory, "
         "sector data; truncation; zeroed runs) of saved packages, judged on the implementation only.  Debug and (thorough) "
@@ -39,7 +39,7 @@ def probe_cmds():
     T, U = X.enc_str("T"), X.enc_str("U")
     join = "(select (sel (inner (sel (t %s) () ()) (sel (t %s) () ()) (bin eq (col %s) (col %s))) () ()))" % (T, U, X.enc_str("T.V"), X.enc_str("U.A"))
     return ["(tables)", "(rows)", join, "(select (sel (t %s) (%s) ((bin gt (col %s) (lit (i 0))))))" % (T, X.enc_str("V"), X.enc_str("K")),
-            "(sum_get)", "(streams)", "(stream_data)",
+            "(sum_get)", "(streams)", "(stream_data)", "(x_ffi_probe)",
             "(insert %s ((%s %s %s)))" % (T, X.enc_value(9), X.enc_value("new"), X.enc_value(1)), "(flush)",
             "(update %s ((%s %s)) ())" % (T, X.enc_str("V"), X.enc_value("upd")), "(flush)",
             "(delete %s ((bin eq (col %s) (lit (i 1)))))" % (T, X.enc_str("K")), "(flush)",
@@ -77,6 +77,9 @@ def corruptions(rng, entries, long_refs):
                 d[off:off + 2] = struct.pack("<H", val)
                 if d != b:
                     yield "word%d=%x:%s" % (off, val, label), None, with_stream(i, d)
+    # a table stream holding more rows than the reader accepts: the file opens, every select on that table is an error
+    ui = dec["U"]
+    yield "toomanyrows:U", None, with_stream(ui, b"\x01\x80" * 131100)
     # pool header variants
     pi = dec["_StringPool"]
     pb = entries[pi][1]
